@@ -710,7 +710,11 @@ pub fn get_sha3_512_file_hash(entry: &DirEntry) -> String {
 
 pub fn is_dir_empty(entry: &DirEntry) -> Option<bool> {
     match fs::read_dir(entry.path()) {
-        Ok(dir) => Some(!dir.into_iter().any(|_| true)),
+        Ok(mut dir) => match dir.next() {
+            None => Some(true),
+            Some(Ok(_)) => Some(false),
+            Some(Err(_)) => None,
+        },
         _ => None,
     }
 }
